@@ -564,6 +564,8 @@ class NDArray:
     def __isub__(self, o): return self._inplace(self - o)
     def __imul__(self, o): return self._inplace(self * o)
     def __itruediv__(self, o): return self._inplace(self / o)
+    def __ipow__(self, o): return self._inplace(self ** o)
+    def __ifloordiv__(self, o): return self._inplace(self // o)
 
     # ------------------------------------------------------------ reductions & co
     def sum(self, axis=None):
